@@ -10,6 +10,7 @@ The models are tied to the code by harness/props/c03.py (streams lin / int / snd
 import PartituraModel.Proofs.C03Perm
 import PartituraModel.Proofs.C03Ranges
 import PartituraModel.Proofs.C03Ties
+import PartituraModel.Proofs.C03Order
 
 namespace C03
 open Model.Xml Model.Ranges
@@ -91,14 +92,13 @@ theorem numbers_distinct (ks : List Key) {l r1 r2 n1 n2 : Nat}
     (h1 : ((l, r1), n1) ∈ counterAfter [] ks) (h2 : ((l, r2), n2) ∈ counterAfter [] ks) (hr : r1 ≠ r2) : n1 ≠ n2 :=
   C03.Ranges.distinct_of_cinv (C03.Ranges.cinv_counterAfter ks C03.Ranges.cinv_nil) h1 h2 hr
 
-/-- **ranges_paired** (in the order the exporter numbers the elements; `readMarks` additionally re-sorts the
-    elements of one note by number, which the harness compares — see `PARTIAL`).  Whatever the order in which
+/-- The core of `ranges_paired`: reading the elements in the order the exporter numbers them.  Whatever the order in which
     the starts and stops of the ranges of one kind come (a stop may precede its start), as long as every
     range is met at most once as a start and once as a stop and ends no earlier than it starts: pairing the
     written numbers the way `handle_slurs` (`checkTime = true`) / `handle_tuplets` does gives back, for every
     range that was closed, its own start note and stop note, loses nothing, and leaves open exactly what the
     exporter's counter still holds. -/
-theorem ranges_paired_partial (label : Nat) (tbl : Nat → C03.Ranges.Rng) (htime : C03.Ranges.TimeOK tbl)
+theorem ranges_paired_in_numbering_order (label : Nat) (tbl : Nat → C03.Ranges.Rng) (htime : C03.Ranges.TimeOK tbl)
     (checkTime : Bool) (evs : List C03.Ranges.REv) (hwf : C03.Ranges.WFEvs [] [] evs) :
     let st := pairAll checkTime { ongoing := fun _ => none, done := [], lost := [] }
       (C03.Ranges.marksOf label tbl [] evs)
@@ -107,6 +107,30 @@ theorem ranges_paired_partial (label : Nat) (tbl : Nat → C03.Ranges.Rng) (htim
   have := C03.Ranges.pairAll_marksOf label tbl checkTime htime evs [] []
     { ongoing := fun _ => none, done := [], lost := [] } ⟨by simp, by simp⟩ (by funext k; simp [C03.Ranges.ongoingOf]) hwf
   simpa [C03.Ranges.cOf] using this
+
+/-- **ranges_paired.**  The importer as it is (`readMarks`: the elements of a note are gathered, sorted stops-first and
+    then by number, and paired through `ongoing`) on the elements as the exporter writes them (per note its
+    stops sorted by number, then its starts sorted by number), where the numbers are the ones the exporter's
+    counter hands out in the order it meets the ranges (per note `g.1 ++ g.2`): every range that was closed
+    comes back with its own start note and stop note, nothing is lost or half recovered, and what stays open is
+    what the exporter still has open. -/
+theorem ranges_paired (label : Nat) (tbl : Nat → C03.Ranges.Rng) (htime : C03.Ranges.TimeOK tbl) (checkTime : Bool)
+    (evs : List C03.Ranges.REv) (hwf : C03.Ranges.WFEvs [] [] evs)
+    (notes : List (List Mark × List Mark))
+    (hmarks : (notes.map C03.Order.toggled).flatten = C03.Ranges.marksOf label tbl [] evs)
+    (hruns : C03.Order.GroupsOK (notes.map C03.Order.toggled))
+    (hkind : ∀ g ∈ notes, (∀ a ∈ g.1, a.isStart = false) ∧ (∀ b ∈ g.2, b.isStart = true)) :
+    let st := readMarks checkTime (notes.map C03.Order.written).flatten
+    st.done.Perm ((C03.Ranges.closedBy [] evs).map (fun r => ((tbl r).sN, (tbl r).eN))) ∧ st.lost = [] ∧
+      st.ongoing = C03.Ranges.ongoingOf tbl (C03.Ranges.finalS [] evs) := by
+  have h1 := C03.Order.readMarks_written checkTime notes hruns hkind
+  have h2 := ranges_paired_in_numbering_order label tbl htime checkTime evs hwf
+  rw [hmarks] at h1
+  obtain ⟨ho, hd, hl⟩ := h1
+  simp only at h2 ⊢
+  rw [h2.1] at hd
+  rw [h2.2.1] at hl
+  exact ⟨hd, List.Perm.eq_nil hl, ho.trans h2.2.2⟩
 
 /-! ### ties -/
 
